@@ -218,6 +218,19 @@ def run(c: Check):
                     "Holder(sub=<output A(x=1) of Prod(e=2)>) share an identifier: the output equals the default for "
                     "TypeConfig.__eq__ (which ignores the task mark) and is elided with the task that produced it",
                     dict(pair=[], kind="config-valued-default", probe="harness/drive_cfgdefault.py", got=pr2))
+    # directed probe outside the model (type identifiers are data of the model): the documented derivation of the type
+    # identifier, and two nested classes of the same simple name
+    from vcommon import EXPECTED_TID
+    pr3 = run_impl("drive_typeprobe.py", {}, timeout=300)
+    c.count("probe:type-identifiers")
+    wrong = {k: [pr3["tid"].get(k), v] for k, v in EXPECTED_TID.items() if pr3["tid"].get(k) != v}
+    if wrong:
+        c.violation("C03:type-identifier-derivation", "a class does not get the type identifier the documented rules give it "
+                    "(got, expected): " + json.dumps(wrong)[:300], dict(pair=[], kind="type-identifier-derivation",
+                                                                        probe="harness/drive_typeprobe.py", got=pr3))
+    if pr3["nested_same_name_ids"][0] == pr3["nested_same_name_ids"][1]:
+        c.violation("C03:collision:nested-classes-same-simple-name", "Enc.Opt(x=1) and Dec.Opt(x=1) (two classes) share an identifier",
+                    dict(pair=[], kind="nested-classes", probe="harness/drive_typeprobe.py", got=pr3))
     c.level_assumptions = [
         "SHA-256 is a parameter H of every theorem; conclusions are 'the hashed streams differ' (so identifiers differ unless H collides)",
         "the claimed domain: strings, enum and type names without bytes < 0x20; dict types nested at most two levels; ints in the !q range",
